@@ -10,7 +10,15 @@
         hook SVT_VERIF_PERTURB=<seed>[:pct[:max_us]] (seeded sched_yield / usleep at every semaphore, mutex and cond-var
         wrapper of EbThreads.c),
     and packets (pts, flags, size, content hash) + reconstructed pictures (pts, content hash) must be identical across all
-    runs of the configuration.  Every run is under a watchdog; a timeout counts only if it reproduces on a second seed.
+    runs of the configuration.  Every run is under a watchdog; a timeout counts only if it reproduces.
+    Three families of configurations:
+      main  CQP, cfg.enable_tpl_la = 0.  Any difference is a VIOLATION.
+      tpl   CQP, TPL look-ahead on (the library default), run under CPU contention (two cores, several encodes at once).
+            Known defect: with enable_tpl_la = 1 and >= 2 logical processors the encoder occasionally does not reproduce its
+            own packets at FIXED settings (first differing picture: pts 1).  A difference is classified by a differential test
+            (re-run each of the two differing settings; re-run with enable_tpl_la = 0) and goes through the family key
+            C04-tpl-nondeterministic-lp2plus only if it has that signature; anything else is a VIOLATION.
+      rc    rate_control_mode 1 / 2: same treatment with key C04-rate-control-schedule-dependent (knob: rate_control_mode = 0).
 """
 import os
 import re
@@ -19,18 +27,15 @@ import zlib
 from . import common as C
 
 LEVEL = "other"
-
-
-def e2e(args, timeout, env=None):
-    """C.run_e2e without its automatic 4x-watchdog retry: this check does its own reproduction of timeouts (an intermittent
-    deadlock must not be retried away)."""
-    try:
-        return C.run_e2e(args, timeout=timeout, env=env, retry_hung=False)
-    except TypeError:
-        return C.run_e2e(args, timeout=timeout, env=env)
 MODULE = "SvtVerif.Props.C04"
-WATCHDOG = 420          # seconds (>= 20x a typical run)
+WATCHDOG = 300          # seconds (>= 20x a typical run)
 PAR = 4                 # parallel encodes (machine is shared)
+KEY_TPL = "C04-tpl-nondeterministic-lp2plus"
+KEY_RC = "C04-rate-control-schedule-dependent"
+TPL = "cfg.enable_tpl_la"
+RCM = "cfg.rate_control_mode"
+E = "cfg.enc_mode"
+LP = "cfg.logical_processors"
 
 EXPLANATION = (
     "LEVEL other: the machine-checked part are PROTOCOL theorems, each for all sizes / any number of threads / all interleavings "
@@ -40,14 +45,22 @@ EXPLANATION = (
     "H-footprint (kernel bodies touch shared per-picture state only as the task model says; each stage is a function of its input "
     "histories), which is NOT proved of the ~100k lines of pixel code.  H-footprint is exercised, not proved, by the sweep: every "
     "configuration is really encoded with 1 thread and K times with its own thread count under seeded schedule perturbation, and "
-    "packets + reconstructions are compared byte-wise.  Sequentially-consistent memory is assumed by the models; TSan is not used.")
+    "packets + reconstructions are compared byte-wise.  The main sweep runs with enable_tpl_la=0 and CQP; H-footprint is known to be "
+    "FALSE of the real code with the TPL look-ahead on (default) and with rate control on: those two families are swept separately and "
+    "their differences are reported as the listed findings after a differential test.  Sequentially-consistent memory is assumed by "
+    "the models; TSan is not used.")
+
+
+def e2e(args, timeout, env=None, retry=True):
+    try:
+        return C.run_e2e(args, timeout=timeout, env=env, retry_hung=retry)
+    except TypeError:
+        return C.run_e2e(args, timeout=timeout, env=env)
 
 
 # ----------------------------------------------------------------------------- configurations
-def fixed_configs():
-    E = "cfg.enc_mode"
-    LP = "cfg.logical_processors"
-    return [
+def main_configs(chk):
+    cs = [
         ("small-8bit", dict(w=64, h=64, n=10, bd=8, content=4, **{E: 8, LP: 4})),
         ("one-sb-wide", dict(w=64, h=256, n=8, bd=8, content=4, **{E: 8, LP: 4})),          # 64-wide: the F2 grid
         ("m4-hl4", dict(w=192, h=128, n=10, bd=8, content=4, **{E: 4, LP: 4, "cfg.hierarchical_levels": 4})),
@@ -56,35 +69,47 @@ def fixed_configs():
         ("screen-m5", dict(w=192, h=128, n=8, bd=8, content=5, **{E: 5, LP: 4, "cfg.screen_content_mode": 1})),
         ("wide-tiles-m7", dict(w=320, h=192, n=8, bd=10, content=4, **{E: 7, LP: 16, "cfg.tile_columns": 1})),
         ("long-64", dict(w=64, h=64, n=33, bd=8, content=4, **{E: 8, LP: 4})),
-        ("vbr", dict(w=64, h=64, n=12, bd=8, content=4, **{E: 8, LP: 4, "cfg.rate_control_mode": 1, "cfg.target_bit_rate": 200000})),
-        ("cvbr", dict(w=128, h=64, n=12, bd=8, content=4, **{E: 8, LP: 4, "cfg.rate_control_mode": 2, "cfg.target_bit_rate": 200000})),
     ]
-
-
-def random_configs(chk, count):
-    r = chk.rng
-    sizes = [(64, 64), (64, 192), (128, 64), (192, 128), (72, 88), (128, 128), (256, 192), (320, 192), (136, 72), (64, 320), (384, 256)]
+    if chk.tier == "thorough":
+        r = chk.rng
+        sizes = [(64, 64), (64, 192), (128, 64), (192, 128), (72, 88), (128, 128), (256, 192), (320, 192), (136, 72), (64, 320), (384, 256)]
+        for i in range(10):
+            w, h = r.choice(sizes)
+            a = dict(w=w, h=h, n=r.range(3, 14), bd=r.choice([8, 8, 10]), content=r.choice([0, 2, 4, 4, 5, 3]))
+            a[E] = r.choice([4, 5, 6, 7, 8, 8])
+            a[LP] = r.choice([2, 4, 4, 16])
+            if r.chance(1, 2):
+                a["cfg.hierarchical_levels"] = r.range(0, 4)
+            if r.chance(1, 3):
+                a["cfg.intra_period_length"] = r.range(1, 8)
+            if r.chance(1, 3) and w >= 256:
+                a["cfg.tile_columns"] = 1
+                a["cfg.tile_rows"] = r.range(0, 1)
+            if r.chance(1, 4):
+                a["cfg.qp"] = r.choice([20, 35, 50, 60])
+            cs.append(("rnd%d" % i, a))
     out = []
-    for i in range(count):
-        w, h = r.choice(sizes)
-        a = dict(w=w, h=h, n=r.range(3, 14), bd=r.choice([8, 8, 10]), content=r.choice([0, 2, 4, 4, 5, 3]))
-        a["cfg.enc_mode"] = r.choice([4, 5, 6, 7, 8, 8])
-        a["cfg.logical_processors"] = r.choice([2, 4, 4, 16])
-        if r.chance(1, 2):
-            a["cfg.hierarchical_levels"] = r.range(0, 4)
-        if r.chance(1, 3):
-            a["cfg.intra_period_length"] = r.range(1, 8)
-        if r.chance(1, 3) and w >= 256:
-            a["cfg.tile_columns"] = 1
-            a["cfg.tile_rows"] = r.range(0, 1)
-        rc = r.choice([0, 0, 0, 0, 1, 2])
-        if rc:
-            a["cfg.rate_control_mode"] = rc
-            a["cfg.target_bit_rate"] = r.choice([100000, 300000, 1000000])
-        if r.chance(1, 4):
-            a["cfg.qp"] = r.choice([20, 35, 50, 60])
-        out.append(("rnd%d" % i, a))
+    for name, a in cs:
+        a = dict(a)
+        a[TPL] = 0
+        out.append((name, a, "main"))
     return out
+
+
+def family_configs(chk):
+    tpl = [
+        ("tpl-c05-repro", dict(w=64, h=64, n=5, bd=8, content=4, seed=3000, **{E: 8, LP: 3, "cfg.hierarchical_levels": 2, TPL: 1})),
+        ("tpl-small-8bit", dict(w=64, h=64, n=10, bd=8, content=4, **{E: 8, LP: 4, TPL: 1})),
+        ("tpl-10bit-hl3", dict(w=192, h=128, n=9, bd=10, content=4, **{E: 7, LP: 4, "cfg.hierarchical_levels": 3, TPL: 1})),
+    ]
+    rc = [
+        ("vbr", dict(w=64, h=64, n=12, bd=8, content=4, **{E: 8, LP: 4, RCM: 1, "cfg.target_bit_rate": 200000, TPL: 0})),
+        ("cvbr", dict(w=128, h=64, n=12, bd=8, content=4, **{E: 8, LP: 4, RCM: 2, "cfg.target_bit_rate": 200000, TPL: 0})),
+    ]
+    if chk.tier == "thorough":
+        tpl.append(("tpl-long-64", dict(w=64, h=64, n=33, bd=8, content=4, **{E: 8, LP: 4, TPL: 1})))
+        rc.append(("vbr-tpl", dict(w=128, h=64, n=12, bd=8, content=4, **{E: 8, LP: 4, RCM: 1, "cfg.target_bit_rate": 300000, TPL: 1})))
+    return [(n, a, "tpl") for n, a in tpl] + [(n, a, "rc") for n, a in rc]
 
 
 def seeds_for(chk, K):
@@ -104,6 +129,7 @@ def encode(args, pert, watchdog=WATCHDOG):
     a["watchdog"] = watchdog
     a.setdefault("final_nb", 1)     # non-blocking final drain: the blocking one can deadlock against the recon pool (C27 finding)
     t0 = time.time()
+    # run_e2e's own retry (once, alone, 4x watchdog) implements "a timeout counts only if it reproduces"
     r = e2e(a, watchdog + 60, {"SVT_VERIF_PERTURB": pert} if pert else None)
     r["wall"] = time.time() - t0
     r["pert"] = pert
@@ -121,109 +147,109 @@ def argline(args, pert=None):
 
 
 def first_diff(ra, rb):
+    """-> (text, pts of the first differing packet or None)"""
     for i, (p, q) in enumerate(zip(ra["PKT"], rb["PKT"])):
         if (p["pts"], p["flags"], p["size"], p["crc"]) != (q["pts"], q["flags"], q["size"], q["crc"]):
-            return "packet %d: pts %s/%s size %s/%s crc %s/%s" % (i, p["pts"], q["pts"], p["size"], q["size"], p["crc"], q["crc"])
+            return ("packet %d: pts %s/%s size %s/%s crc %s/%s" % (i, p["pts"], q["pts"], p["size"], q["size"], p["crc"], q["crc"]),
+                    p["pts"] if p["pts"] == q["pts"] else None)
     if len(ra["PKT"]) != len(rb["PKT"]):
-        return "packet count %d/%d" % (len(ra["PKT"]), len(rb["PKT"]))
+        return "packet count %d/%d" % (len(ra["PKT"]), len(rb["PKT"])), None
     a = dict((x["pts"], x["crc"]) for x in ra["RECON"])
     b = dict((x["pts"], x["crc"]) for x in rb["RECON"])
     for k in sorted(set(a) | set(b)):
         if a.get(k) != b.get(k):
-            return "recon pts %s: %s/%s (packets identical)" % (k, a.get(k), b.get(k))
-    return "?"
+            return "recon pts %s: %s/%s (packets identical)" % (k, a.get(k), b.get(k)), None
+    return "?", None
 
 
 def run_config(item):
     """All runs of one configuration; returns a result dict."""
-    name, args, perts = item
-    runs = []
-    a1 = dict(args)
-    a1["cfg.logical_processors"] = 1
-    runs.append(("lp1", a1, None))
-    for p in perts:
-        runs.append(("lp%s" % args.get("cfg.logical_processors", 4), args, p))
-    res = []
-    for tag, a, p in runs:
-        r = encode(a, p)
-        if r["hung"]:
-            # R6: a watchdog hit counts only if it reproduces on a second seed
-            p2 = "%d" % ((zlib.crc32(("%s|%s" % (name, p)).encode()) & 0xFFFFF) + 11)
-            r2 = encode(a, p2)
-            if r2["hung"]:
-                r["hang_confirmed"] = p2
-            else:
-                r = r2
-                r["retried_after_timeout"] = True
-        res.append((tag, a, p, r))
-    return {"name": name, "args": args, "runs": res}
+    name, args, fam, perts = item
+    old_aff = None
+    if fam == "tpl":
+        # CPU contention makes the TPL race visible: this worker thread (and the encoder processes it starts) is confined to two cores
+        try:
+            old_aff = os.sched_getaffinity(0)
+            cpus = sorted(old_aff)[:2]
+            os.sched_setaffinity(0, set(cpus))
+        except (AttributeError, OSError):
+            old_aff = None
+    try:
+        runs = []
+        a1 = dict(args)
+        a1[LP] = 1
+        runs.append(("lp1", a1, None))
+        for p in perts:
+            runs.append(("lp%s" % args.get(LP, 4), args, p))
+        res = [(tag, a, p, encode(a, p)) for tag, a, p in runs]
+    finally:
+        if old_aff is not None:
+            try:
+                os.sched_setaffinity(0, old_aff)
+            except OSError:
+                pass
+    return {"name": name, "args": args, "family": fam, "runs": res}
 
 
 def classify(cfg):
-    """-> (kind, text) or None.  kind in {'hang','crash','error','schedule','threads'}"""
-    args = cfg["args"]
+    """-> (kind, text, (runA, runB) or None) or None.  kind in {'hang','crash','error','schedule','threads'}"""
     runs = cfg["runs"]
     for tag, a, p, r in runs:
-        if r.get("hang_confirmed"):
-            return ("hang", "watchdog timeout (%ds), reproduced with a second perturbation seed (%s)\n%s\npackets so far: %d of %d" %
-                    (WATCHDOG, r["hang_confirmed"], argline(a, p), len(r["PKT"]), a["n"]))
+        if r["hung"]:
+            return ("hang", "watchdog timeout (%d s, and again alone with %d s)\n%s\npackets so far: %d of %d" %
+                    (WATCHDOG, 4 * WATCHDOG, argline(a, p), len(r["PKT"]), a["n"]), None)
         if r["crashed"]:
-            return ("crash", "encoder process died rc=%s\n%s\n%s" % (r["rc"], argline(a, p), r["stderr"][-600:]))
+            return ("crash", "encoder process died rc=%s\n%s\n%s" % (r["rc"], argline(a, p), r["stderr"][-600:]), None)
         if not run_ok(r, a):
             return ("error", "encode did not complete normally: SETPARAM=%s ERR=%s packets=%d recons=%d of %d\n%s" %
-                    (r["SETPARAM"], r["ERR"][:3], len(r["PKT"]), len(r["RECON"]), a["n"], argline(a, p)))
+                    (r["SETPARAM"], r["ERR"][:3], len(r["PKT"]), len(r["RECON"]), a["n"], argline(a, p)), None)
     sigs = [C.e2e_signature(r) for _, _, _, r in runs]
-    multi = list(range(1, len(runs)))
-    for i in multi[1:]:
-        if sigs[i] != sigs[multi[0]]:
-            ta, aa, pa, ra = runs[multi[0]]
-            tb, ab, pb, rb = runs[i]
+    for i in range(2, len(runs)):
+        if sigs[i] != sigs[1]:
+            ra, rb = runs[1], runs[i]
             return ("schedule", "two encodes of the SAME configuration and input differ (only the thread schedule differs)\n"
-                    "run A: %s\nrun B: %s\nfirst difference: %s" % (argline(aa, pa), argline(ab, pb), first_diff(ra, rb)))
+                    "run A: %s\nrun B: %s\nfirst difference: %s" % (argline(ra[1], ra[2]), argline(rb[1], rb[2]), first_diff(ra[3], rb[3])[0]),
+                    (ra, rb))
     if sigs[0] != sigs[1]:
-        ta, aa, pa, ra = runs[0]
-        tb, ab, pb, rb = runs[1]
+        ra, rb = runs[0], runs[1]
         return ("threads", "the single-thread encode differs from the multi-thread encodes (which agree with each other)\n"
-                "run A: %s\nrun B: %s\nfirst difference: %s" % (argline(aa, pa), argline(ab, pb), first_diff(ra, rb)))
+                "run A: %s\nrun B: %s\nfirst difference: %s" % (argline(ra[1], ra[2]), argline(rb[1], rb[2]), first_diff(ra[3], rb[3])[0]),
+                (ra, rb))
     return None
 
 
-def finding_key(kind, args):
-    rc = int(args.get("cfg.rate_control_mode", 0))
-    if kind in ("schedule", "threads") and rc != 0:
-        return "C04-rate-control-schedule-dependent"
-    if kind == "hang":
-        return "C04-hang-%dx%d" % (args["w"], args["h"])
-    if kind in ("schedule", "threads"):
-        return "C04-output-differs-%dx%d-n%d-m%s-lp%s" % (args["w"], args["h"], args["n"], args.get("cfg.enc_mode", 8),
-                                                          args.get("cfg.logical_processors", 4))
-    return None
-
-
-def minimise(chk, args, budget=10):
-    """Shrink a schedule-dependent configuration: fewer frames / smaller picture / fewer threads, keeping the difference
-    reproducible within 4 runs."""
-    def differs(a):
-        sigs = set()
-        for p in (None, None, "%d" % (chk.seed + 3), "%d:25:300" % (chk.seed + 5)):
-            r = encode(a, p, watchdog=WATCHDOG)
-            if not run_ok(r, a):
-                return False
-            sigs.add(C.e2e_signature(r))
-        return len(sigs) > 1
-    best = dict(args)
-    tries = 0
-    for key, cands in (("n", [best["n"] // 2, best["n"] * 3 // 4]), ("w", [64, 128]), ("h", [64, 128]), ("cfg.logical_processors", [2])):
-        for v in cands:
-            if tries >= budget or v <= 0 or v >= best.get(key, 1 << 30):
-                continue
-            t = dict(best)
-            t[key] = v
-            tries += 1
-            if differs(t):
-                best = t
+def differential(cfg, pair, reps=4):
+    """Differential test for a difference met in a labelled family.  -> (is_known_signature, text)."""
+    fam = cfg["family"]
+    knob = (TPL, 0) if fam == "tpl" else (RCM, 0)
+    (ta, aa, pa, ra), (tb, ab, pb, rb) = pair
+    txt, pts = first_diff(ra, rb)
+    lines = []
+    # (1) nondeterminism at FIXED settings: each of the two settings re-run `reps` times
+    for label, a, p, r0 in (("A", aa, pa, ra), ("B", ab, pb, rb)):
+        sigs = [C.e2e_signature(r0)]
+        for _ in range(reps):
+            r = encode(a, p)
+            if run_ok(r, a):
+                sigs.append(C.e2e_signature(r))
+            if len(set(sigs)) > 1:
                 break
-    return best
+        lines.append("setting %s re-run %d times: %d distinct outputs" % (label, len(sigs) - 1, len(set(sigs))))
+        if len(set(sigs)) > 1:
+            return True, "\n".join(lines) + "\n=> nondeterministic at fixed settings"
+    # (2) does the difference vanish with the knob off?
+    a2, b2 = dict(aa), dict(ab)
+    a2[knob[0]] = knob[1]
+    b2[knob[0]] = knob[1]
+    same = True
+    for _ in range(2):
+        x, y = encode(a2, pa), encode(b2, pb)
+        if not (run_ok(x, a2) and run_ok(y, b2) and C.e2e_signature(x) == C.e2e_signature(y)):
+            same = False
+    lines.append("with %s=%s the two settings %s" % (knob[0], knob[1], "agree" if same else "still differ"))
+    if same and (fam == "rc" or pts == 1):
+        return True, "\n".join(lines) + "\n=> the difference needs %s != %s%s" % (knob[0], knob[1], "; first differing picture is pts 1" if fam == "tpl" else "")
+    return False, "\n".join(lines) + "\n=> NOT the signature of the listed finding (first differing packet pts %s)" % pts
 
 
 # ----------------------------------------------------------------------------- check
@@ -237,24 +263,21 @@ def run(chk, only=None):
         "schedule perturbation hook in EbThreads.c (guard SVT_AV1_VERIF, env SVT_VERIF_PERTURB); harness/enc_e2e.c; "
         "FNV-1a 64-bit content hashes of packets and reconstructions stand for byte equality"])
     K = 4 if chk.tier == "quick" else 24
-    if only is not None:
-        configs = only
-    elif chk.tier == "quick":
-        configs = fixed_configs()
-    else:
-        configs = fixed_configs() + random_configs(chk, 10)
+    configs = only if only is not None else main_configs(chk) + family_configs(chk)
     C.e2e_exe()
-    items = [(name, args, seeds_for(chk, K)) for name, args in configs]
+    # the tpl family goes first and together, so that its encodes overlap (contention)
+    configs = [c for c in configs if c[2] == "tpl"] + [c for c in configs if c[2] != "tpl"]
+    items = [(name, args, fam, seeds_for(chk, K)) for name, args, fam in configs]
     results = C.run_parallel(run_config, items, workers=PAR)
     nrun = 0
     compared = set()
-    hist = {"lp": {}, "enc_mode": {}, "size": {}, "bd": {}, "rc": {}, "content": {}}
+    hist = {"lp": {}, "enc_mode": {}, "size": {}, "bd": {}, "family": {}, "content": {}}
     wall = []
     bad = []
     for cfg in results:
         a = cfg["args"]
-        for k, v in (("lp", a.get("cfg.logical_processors", 4)), ("enc_mode", a.get("cfg.enc_mode", 8)), ("size", "%dx%d" % (a["w"], a["h"])),
-                     ("bd", a["bd"]), ("rc", a.get("cfg.rate_control_mode", 0)), ("content", a["content"])):
+        for k, v in (("lp", a.get(LP, 4)), ("enc_mode", a.get(E, 8)), ("size", "%dx%d" % (a["w"], a["h"])),
+                     ("bd", a["bd"]), ("family", cfg["family"]), ("content", a["content"])):
             hist[k][str(v)] = hist[k].get(str(v), 0) + 1
         for tag, aa, p, r in cfg["runs"]:
             nrun += 1
@@ -276,19 +299,24 @@ def run(chk, only=None):
     chk.cov["not_done"] = "SRM / segment event traces of the real runs are not replayed through the C23 / C24 models (no trace hook in the tree)"
     for cfg in results[:3]:
         tag, aa, p, r = cfg["runs"][-1]
-        chk.sample({"config": argline(aa, p), "packets": len(r["PKT"]), "first_packet_crc": r["PKT"][0]["crc"] if r["PKT"] else None})
+        chk.sample({"config": argline(aa, p), "family": cfg["family"], "packets": len(r["PKT"]),
+                    "first_packet_crc": r["PKT"][0]["crc"] if r["PKT"] else None})
     chk.assumptions += ["H-footprint (not proved): kernel bodies touch shared per-picture state only as the task model says",
-                        "speed_control_flag = 0; one encoder instance per process"]
-    for cfg, (kind, text) in bad:
-        key = finding_key(kind, cfg["args"])
-        known = key is not None and any(k["key"] == key for k in chk.known)
-        mini = ""
-        if kind == "schedule" and not known and chk.tier == "thorough":
-            m = minimise(chk, cfg["args"])
-            if m != cfg["args"]:
-                mini = "\nminimised configuration that still differs between runs: %s" % argline(m)
-        chk.violation("C04 violated on the real encoder (%s): configuration '%s'\n%s%s\nreplay: bin/check C04 --replay <this file>\n"
-                      "config: %s\n" % (kind, cfg["name"], text, mini, " ".join("%s=%s" % kv for kv in cfg["args"].items())), key=key)
+                        "main sweep: enable_tpl_la = 0, rate_control_mode = 0, speed_control_flag = 0; one encoder instance per process"]
+    family_notes = []
+    for cfg, (kind, text, pair) in bad:
+        key = None
+        extra = ""
+        if cfg["family"] in ("tpl", "rc") and kind in ("schedule", "threads") and pair is not None:
+            known, dtxt = differential(cfg, pair)
+            extra = "\ndifferential test:\n" + dtxt
+            if known:
+                key = KEY_TPL if cfg["family"] == "tpl" else KEY_RC
+            family_notes.append("%s: %s" % (cfg["name"], dtxt.replace("\n", "; ")))
+        chk.violation("C04 violated on the real encoder (%s, family %s): configuration '%s'\n%s%s\nreplay: bin/check C04 --replay <this file>\n"
+                      "config: family=%s %s\n" % (kind, cfg["family"], cfg["name"], text, extra, cfg["family"],
+                                                   " ".join("%s=%s" % kv for kv in cfg["args"].items())), key=key)
+    chk.cov["family_differences"] = family_notes
     if chk.violations:
         return
     if not pr.ok:
@@ -304,8 +332,12 @@ def replay(chk, path):
         m = re.match(r"\s*config:\s*(.+)$", line)
         if m:
             a = {}
+            fam = "main"
             for tok in m.group(1).split():
                 k, v = tok.split("=", 1)
-                a[k] = int(v) if re.match(r"-?\d+$", v) else v
-            configs.append(("replay%d" % len(configs), a))
+                if k == "family":
+                    fam = v
+                else:
+                    a[k] = int(v) if re.match(r"-?\d+$", v) else v
+            configs.append(("replay%d" % len(configs), a, fam))
     run(chk, configs or None)
